@@ -37,7 +37,7 @@ CLASSES = ["sdp", "scp_random", "scp_boundary", "scp_bitwalk", "scp_short",
 
 
 def plan(tier):
-    n = 700 if tier == "quick" else 60000
+    n = 8000 if tier == "quick" else 300000
     return [(c, n) for c in CLASSES]
 
 
